@@ -15,8 +15,12 @@ claimed = {c["property_id"] for c in checks}
 props = [json.loads(l)["id"] for l in open(os.path.join(ROOT, "properties.jsonl")) if l.strip()]
 na_reasons = json.load(open(os.path.join(ROOT, "manifest", "_not_applicable.json")))
 na = [{"property_id": p, "reason": na_reasons.get(p, "check not built yet (planned: DESIGN.md §3 and §7)")} for p in props if p not in claimed]
-out = subprocess.run(["git", "-C", "/repo", "log", "--format=%h %s"], capture_output=True, text=True).stdout.splitlines()
-commits = [l.split()[0] for l in out if l.split(" ", 1)[1].startswith("verif:")][::-1]
+# every commit after the pinned snapshot that is not a "fix:" commit carries (only) cfg-guarded hooks:
+# the "verif:" commits and the merge commits that joined the builders' hook branches
+out = subprocess.run(["git", "-C", "/repo", "log", "--format=%h %s", "c0c5d6d..HEAD"], capture_output=True, text=True).stdout.splitlines()
+commits = [l.split()[0] for l in out if not l.split(" ", 1)[1].startswith("fix:")][::-1]
+fixes = [l.split()[0] for l in out if l.split(" ", 1)[1].startswith("fix:")][::-1]
+base["notes"] = base.get("notes", "").split(" Fix commits:")[0] + " Fix commits: " + ", ".join(fixes)
 if commits:
     base["hooks"]["source_commits"] = commits
 engines = {e["name"]: e for e in base.get("engines", [])}
